@@ -277,7 +277,8 @@ func c17SrvEnumerate(sh *evidence.Shard) {
 								p.Sample(c)
 							}
 							if clause != "" {
-								sh.Violate(p.Name, fmt.Sprintf("server-udp/%s/%s%d,cuts=%v,order=%v,hook=%d,addr=%s,second=%v", clause, pay.kind, n, cuts, perm, hook, addr, second), detail, c)
+								// one signature per clause x hook behaviour x number of fragments; the replay file holds one complete case
+								sh.Violate(p.Name, fmt.Sprintf("server-udp/%s/hook=%d,fragments=%d", clause, hook, nf), detail, c)
 							}
 						}
 					}
